@@ -24,6 +24,8 @@ pub fn ref_ttl(obs: &Ttl, sig: &Ttl) -> Option<Option<u32>> {
             Some(Some(if *t as u16 + *d as u16 == *n as u16 { 0 } else { 2 }))
         }
         (Ttl::Value(t), Ttl::Value(n)) => Some(Some(if t == n { 0 } else { 2 })),
+        // `nnn-`: random TTLs up to the maximum nnn; a larger observed TTL cannot be an instance (decisive)
+        (Ttl::Distance(t, _), Ttl::Bad(n)) | (Ttl::Value(t), Ttl::Bad(n)) => Some(if t <= n { Some(0) } else { None }),
         _ => None,
     }
 }
@@ -98,6 +100,14 @@ fn check_ttl(r: &mut Report) {
                 r.exec(1);
                 if got != exp {
                     dev_comp(r, "ttl-distance-form-vs-value", format!("observed {obs} vs signature {sig}: expected {exp:?} got {got:?}"), json!({"obs": obs.to_string(), "sig": sig.to_string()}));
+                }
+            }
+            for obs in [Ttl::Value(t), Ttl::Distance(t, 3)] {
+                let sigb = Ttl::Bad(n);
+                let got = obs.distance_ttl(&sigb);
+                r.exec(1);
+                if Some(got) != ref_ttl(&obs, &sigb) {
+                    dev_comp(r, "ttl-random-form", format!("observed {obs} vs signature {sigb}: got {got:?}"), json!({"obs": obs.to_string(), "sig": sigb.to_string()}));
                 }
             }
             let obs = Ttl::Value(t);
@@ -196,7 +206,9 @@ fn ref_total(f: &Fld) -> Option<Option<u32>> {
     if !(f.ver.1 == IpVersion::Any || f.ver.0 == f.ver.1) {
         return Some(None);
     }
-    if f.olayout.0 != f.olayout.1 || !set_eq(&f.quirks.0, &f.quirks.1) {
+    let ignored: Vec<Quirk> = if f.ver.0 == IpVersion::V6 { vec![Quirk::Df, Quirk::NonZeroID, Quirk::ZeroID, Quirk::MustBeZero] } else { vec![Quirk::FlowID] };
+    let strip = |v: &[Quirk]| v.iter().filter(|q| !ignored.contains(q)).cloned().collect::<Vec<_>>();
+    if f.olayout.0 != f.olayout.1 || !set_eq(&strip(&f.quirks.0), &strip(&f.quirks.1)) {
         return Some(None);
     }
     if !(f.pclass.1 == PayloadSize::Any || f.pclass.0 == f.pclass.1) {
@@ -204,15 +216,16 @@ fn ref_total(f: &Fld) -> Option<Option<u32>> {
     }
     d += ref_ttl(&f.ttl.0, &f.ttl.1)??;
     d += if f.olen.0 == f.olen.1 { 0 } else { 2 };
-    d += if f.mss.1.is_none() || f.mss.0 == f.mss.1 { 0 } else { 2 };
+    // an absent option is an instance of the signature value 0 (p0f writes 0 for "not present")
+    d += if f.mss.1.is_none() || f.mss.0.unwrap_or(0) == f.mss.1.unwrap_or(0) { 0 } else { 2 };
     d += ref_win(&f.win.0, &f.win.1, f.mss.0)??;
-    d += if f.wscale.1.is_none() || f.wscale.0 == f.wscale.1 { 0 } else { 1 };
+    d += if f.wscale.1.is_none() || f.wscale.0.unwrap_or(0) == f.wscale.1.unwrap_or(0) { 0 } else { 1 };
     Some(Some(d))
 }
 fn check_whole(r: &mut Report) {
     use Quirk::*;
     let vers = [(IpVersion::V4, IpVersion::V4), (IpVersion::V6, IpVersion::V6), (IpVersion::V4, IpVersion::Any), (IpVersion::V6, IpVersion::Any), (IpVersion::V4, IpVersion::V6), (IpVersion::V6, IpVersion::V4)];
-    let ttls = [(Ttl::Distance(57, 7), Ttl::Value(64)), (Ttl::Distance(64, 0), Ttl::Value(64)), (Ttl::Distance(98, 30), Ttl::Value(128)), (Ttl::Distance(57, 7), Ttl::Value(128)), (Ttl::Value(200), Ttl::Value(200)), (Ttl::Value(200), Ttl::Value(255))];
+    let ttls = [(Ttl::Distance(57, 7), Ttl::Value(64)), (Ttl::Distance(64, 0), Ttl::Value(64)), (Ttl::Distance(98, 30), Ttl::Value(128)), (Ttl::Distance(57, 7), Ttl::Value(128)), (Ttl::Value(200), Ttl::Value(200)), (Ttl::Value(200), Ttl::Value(255)), (Ttl::Distance(57, 7), Ttl::Bad(64)), (Ttl::Distance(100, 28), Ttl::Bad(64))];
     let olens = [(0u8, 0u8), (4, 4), (0, 4), (4, 0)];
     let msss = [(Some(1460u16), None), (Some(1460), Some(1460)), (None, None), (Some(1460), Some(1400)), (None, Some(1460)), (Some(0), Some(0))];
     let wins = [
@@ -237,7 +250,7 @@ fn check_whole(r: &mut Report) {
         (lay(&[TcpOption::Mss]), lay(&[TcpOption::Mss, TcpOption::Nop])),
         (lay(&[TcpOption::Unknown(9)]), lay(&[TcpOption::Unknown(10)])),
     ];
-    let quirks = [(vec![Df, NonZeroID], vec![Df, NonZeroID]), (vec![], vec![]), (vec![Df, NonZeroID], vec![Df]), (vec![Df], vec![Df, Ecn]), (vec![Ecn, Df, NonZeroID], vec![Df, NonZeroID, Ecn]), (vec![Df], vec![ZeroID])];
+    let quirks = [(vec![Df, NonZeroID], vec![Df, NonZeroID]), (vec![], vec![]), (vec![Df, NonZeroID], vec![Df]), (vec![Df], vec![Df, Ecn]), (vec![Ecn, Df, NonZeroID], vec![Df, NonZeroID, Ecn]), (vec![Df], vec![ZeroID]), (vec![], vec![Df, NonZeroID]), (vec![FlowID], vec![]), (vec![], vec![FlowID])];
     let pcs = [(PayloadSize::Zero, PayloadSize::Zero), (PayloadSize::NonZero, PayloadSize::Any), (PayloadSize::Zero, PayloadSize::Any), (PayloadSize::NonZero, PayloadSize::Zero), (PayloadSize::Zero, PayloadSize::NonZero)];
     let dims = [vers.len(), ttls.len(), olens.len(), msss.len(), wins.len(), wss.len(), olayouts.len(), quirks.len(), pcs.len()];
     let total: usize = dims.iter().product();
